@@ -328,22 +328,35 @@ def parallel_desc(rng):
         nxt[0] += 1
         d.cb_slot[c] = slot
         return c
-    names = list(range(7))       # 0 P | 1 R1 (3, 4) | 2 R2 (5, 6)
-    parent = {0: None, 1: 0, 2: 0, 3: 1, 4: 1, 5: 2, 6: 2}
-    kids = {0: [1, 2], 1: [3, 4], 2: [5, 6]}
+    # 0 P (parallel) | regions 1 and 2, each a leaf, a compound (two leaves) or a compound whose first child is a
+    # compound again: regions of DIFFERENT depth are the interesting case (a shorter path need not be an ancestor)
+    parent = {0: None, 1: 0, 2: 0}
+    kids = {0: [1, 2]}
+    nxt_id = [3]
+
+    def grow(r, depth):
+        if depth == 0:
+            return
+        a, b = nxt_id[0], nxt_id[0] + 1
+        nxt_id[0] += 2
+        kids[r] = [a, b]
+        parent[a] = parent[b] = r
+        grow(a, depth - 1)
+    grow(1, rng.choice([0, 1, 1, 2]))
+    grow(2, rng.choice([0, 1, 1, 2]))
+    names = list(range(nxt_id[0]))
     for i in names:
         d.states.append({'name': i, 'on_enter': [], 'on_exit': [], 'ignore': None, 'final': False, 'parent': parent[i],
                          'children': kids.get(i, []), 'parallel': i == 0,
-                         'init_child': (kids[i][0] if i in (1, 2) else None)})
+                         'init_child': (kids[i][0] if (i != 0 and i in kids) else None)})
     d.initial = 0
     d.prepare_event = [cb(SLOT['prepare_event'])] if rng.random() < 0.5 else []
     for e in range(3):
         ts = []
         for src in rng.sample(names, rng.randint(1, 3)):
-            if src in (3, 4):
-                dest = rng.choice([3, 4, None])
-            elif src in (5, 6):
-                dest = rng.choice([5, 6, None])
+            sibs = [x for x in kids.get(parent[src], []) if parent[src] not in (None, 0)] if parent[src] is not None else []
+            if sibs and src not in kids:
+                dest = rng.choice(sibs + [None])       # a leaf inside a region: to a sibling leaf, or internal
             else:
                 dest = rng.choice([None, src])
             conds = []
